@@ -40,7 +40,10 @@ type dbProfile struct {
 	Nontrivial func(in DBInput, obs []stepObs) bool
 }
 
-var dbNames = [][]byte{[]byte("a"), []byte("b"), []byte("a/b"), []byte("p/q"), []byte(""), []byte("_internal/x"), []byte("a\nb")}
+// names are opaque strings to setec: "a/../b" is NOT "b", "a/./b" and "a//b" are NOT "a/b" (a caller allowed
+// "a/*" may touch "a/../b" and nothing else by that name; it never reaches "b")
+var dbNames = [][]byte{[]byte("a"), []byte("b"), []byte("a/b"), []byte("p/q"), []byte(""), []byte("_internal/x"), []byte("a\nb"),
+	[]byte("a/../b"), []byte("a/./b"), []byte("a//b"), []byte("p/../_internal/x")}
 
 func superOnly(r *rand.Rand) []DBCaller {
 	return []DBCaller{{ID: 1, Rules: superRules()}}
@@ -103,6 +106,10 @@ func randSubset(r *rand.Rand, xs []string) []string {
 		if r.IntN(2) == 0 {
 			out = append(out, x)
 		}
+	}
+	// sometimes an action string setec does not know (a typo, another product's verb): it grants nothing
+	if r.IntN(6) == 0 {
+		out = append(out, []string{"list", "read", "Get", "", "get "}[r.IntN(5)])
 	}
 	return out
 }
